@@ -12,3 +12,7 @@ import LettreVerif.Props.C17
 #print axioms LV.C17.mailbox_list_roundtrip
 #print axioms LV.C17.display_name_is_one_phrase
 #print axioms LV.C17.address_class_sound
+#print axioms LV.C17.mime_version_roundtrip
+#print axioms LV.C17.mime_version_parse_in_range
+#print axioms LV.C17.cte_roundtrip
+#print axioms LV.C17.cte_parse_exact
